@@ -401,3 +401,198 @@ def comment_is_transparent_for_used_after(c, rest, identifier, let_id, found):
     if not is_comment_leaf(c) or c.id == let_id:
         return True
     return used_after([c] + rest, identifier, let_id, found) == used_after(rest, identifier, let_id, found)
+
+
+# ================================================================== DRY line tracking: the reported span follows the text (C13)
+# The DRY contracts (tokenise -> track -> windows) are owned by c03_windows.py under C03. C13 DEPENDS on them: a blank or
+# comment-only line inserted inside a duplicated block is dropped by `track` (lemma above), so the block has the same
+# code lines, the same count and the same start; its END line is the ORIGINAL line of its last code line, i.e. it moves
+# down with the text -- it is NOT start + count - 1. Read-only reuse: "C13" is added to the props of those contracts and
+# lemmas at load time, so ./check C13 re-verifies their bodies.
+from pyvc import api as _api  # noqa: E402
+from contracts.c03_windows import (twin, twindows_from, tracked_windows_property, ts_windows_complete,  # noqa: E402
+                                   T as DRY_T, PA as DRY_PA, TA as DRY_TA)
+
+C13_DEPENDS_ON = [DRY_T + "normalize_line", DRY_T + "_strip_comments", DRY_T + "should_skip_import_line", DRY_T + "rolling_hash",
+                  DRY_PA + "_normalize_and_filter_line", DRY_TA + "_normalize_and_filter_line",
+                  DRY_PA + "_tokenize_with_line_numbers", DRY_TA + "_tokenize_with_line_numbers",
+                  DRY_PA + "_rolling_hash_with_tracking", DRY_TA + "_rolling_hash_with_tracking",
+                  "src/linters/clone_abuse/rust_analyzer.py::_identifier_used_after",
+                  "src/linters/clone_abuse/rust_analyzer.py::_node_contains_identifier"]
+C13_DEPENDS_ON_LEMMAS = ["py-windows-complete-with-original-lines", "ts-windows-complete-with-original-lines",
+                         "tracked-windows-indexing", "slice-ends"]
+for _t in C13_DEPENDS_ON:
+    _c = _api.REGISTRY.get(_t)
+    if _c is not None and "C13" not in _c.props:
+        _c.props.append("C13")
+for _l in _api.LEMMAS:
+    if _l.name in C13_DEPENDS_ON_LEMMAS and "C13" not in _l.props:
+        _l.props.append("C13")
+
+
+# The statement itself -- window j starts at the original line of tracked line j and ENDS AT THE ORIGINAL LINE OF TRACKED LINE
+# j+w-1, whatever blank / comment lines lie between them -- is c03's lemma `ts-windows-complete-with-original-lines` (and the
+# py- twin), now also checked under C13; together with `line-tracking-skips-a-blank-or-comment-only-line-in-any-state` above:
+# a blank / comment line inserted inside a duplicated block leaves its code-line count and start unchanged and moves its end by
+# exactly one line.
+
+
+# ================================================================== CQS (TypeScript): the fluent-interface test ignores comments
+# `return this;` as the function's final return statement exempts a method from CQS (detect_fluent_interface). In the
+# tree-sitter grammar comments are (named) children of the statement block, so "the body ends with return this" must
+# mean "the LAST return_statement child is `return this`" -- a comment after it is transparent.
+CQS_TS = "src/linters/cqs/typescript_function_analyzer.py::"
+
+
+def return_children(body):
+    return [child for child in body.children if child.type == "return_statement"]
+
+
+@contract(CQS_TS + "_ends_with_return_this", props=["C13", "C19", "C11"], types=dict(body_node=TSNode, returns=SeqOf(TSNode)),
+          returns=Bool, raises=[])
+class EndsWithReturnThis:
+    def requires(body_node):
+        return body_node is not None
+
+    def value(body_node):
+        return len([child for child in body_node.children if child.type == "return_statement"]) > 0 and any(
+            child.type == "this"
+            for child in [child for child in body_node.children if child.type == "return_statement"][-1].children)
+
+
+def returns_of(s):
+    return [child for child in s if child.type == "return_statement"]
+
+
+@lemma(props=["C13"], types=dict(c=TSNode, rest=SeqOf(TSNode)), name="a-comment-is-not-among-the-return-statements")
+def comment_not_a_return(c, rest):
+    """The list the verdict is computed from does not change when a comment node (any node that is not a
+    return_statement) is put in front of the remaining children -- by the recursion of the comprehension, anywhere."""
+    if c is None or c.type == "return_statement":
+        return True
+    return returns_of([c] + rest) == returns_of(rest)
+
+
+# ================================================================== BOUNDED net: meaning-preserving edits at the observation point
+# Labelled `bounded` (finite native differential, not a proof; the lemmas above are the deductive part). Every registered
+# rule is run by the real Orchestrator on a corpus of healthy Python / TypeScript / Rust files and on every single edit of
+# these kinds: a blank line / a directive-free comment-only line inserted at every line boundary outside string literals
+# (below the header docstring for files that start with one; below a shebang line), trailing whitespace on every line,
+# CRLF line ends, a UTF-8 BOM, unrelated code appended at the end. Oracle = the property: same findings (rule, column),
+# each moved down by exactly the number of lines inserted above it; file-level findings reported at line 1 stay there.
+import io as _io  # noqa: E402
+import json as _json  # noqa: E402
+import os as _os  # noqa: E402
+import subprocess as _subprocess  # noqa: E402
+import sys as _sys  # noqa: E402
+import tempfile as _tempfile  # noqa: E402
+import tokenize as _tokenize  # noqa: E402
+from pyvc.api import custom  # noqa: E402
+
+_EDIT_DRIVER = r"""
+import json, sys
+from pathlib import Path
+sys.path.insert(0, sys.argv[1])
+from src.orchestrator.core import Orchestrator
+root = Path(sys.argv[2])
+o = Orchestrator(project_root=root)
+out = {}
+for p in sorted(root.iterdir()):
+    if p.suffix in (".py", ".ts", ".js", ".rs"):
+        out[p.name] = sorted({(v.rule_id, v.line, v.column) for v in o.lint_file(p)})
+print("RESULT" + json.dumps(out))
+"""
+APPENDED = {"py": "\n\ndef _appended_helper():\n    return None\n", "ts": "\nfunction appendedHelper(): null {\n  return null;\n}\n",
+            "rs": "\nfn appended_helper() {}\n"}
+FILE_LEVEL = ("file-header", "file-placement", "lazy-ignores.orphaned")
+
+
+def _insertion_points(name, text):
+    """Indices k (insert before line k+1, 0-based k in 0..nlines) where a blank / comment-only line cannot change the
+    program: not inside a string literal, not above a shebang, not above / inside the header docstring."""
+    lines = text.split("\n")
+    n = len(lines) - (1 if lines[-1] == "" else 0)
+    banned = set()
+    if text.startswith("#!"):
+        banned.add(0)
+    if name.endswith(".py"):
+        first_code = True
+        for tok in _tokenize.generate_tokens(_io.StringIO(text).readline):
+            if tok.type == _tokenize.STRING and tok.start[0] != tok.end[0]:
+                banned.update(range(tok.start[0], tok.end[0]))          # strictly inside a multi-line string
+                if first_code:
+                    banned.update(range(0, tok.end[0]))                 # header docstring: only edits BELOW it
+            if tok.type not in (_tokenize.COMMENT, _tokenize.NL, _tokenize.NEWLINE, _tokenize.ENCODING, _tokenize.INDENT):
+                first_code = False
+    return [k for k in range(0, n + 1) if k not in banned]
+
+
+def _edited_files():
+    from contracts.c11_containment import MUTATION_CORPUS
+    files = {}
+    for name, text in MUTATION_CORPUS.items():
+        stem, ext = name.rsplit(".", 1)
+        lines = text.split("\n")
+        files[name] = (text, name, "baseline", 0)
+        comment = "# note for the reader" if ext == "py" else "// note for the reader"
+        for k in _insertion_points(name, text):
+            nxt = next((ln for ln in lines[k:] if ln.strip()), "")
+            ind = nxt[:len(nxt) - len(nxt.lstrip())]
+            for kind, ins in (("blank-line", ""), ("comment-line", ind + comment)):
+                files[f"{stem}__{kind}-at-{k}.{ext}"] = ("\n".join(lines[:k] + [ins] + lines[k:]), name, kind, k)
+        files[f"{stem}__trailing-whitespace.{ext}"] = ("\n".join((ln + "  ") if ln.strip() and not ln.rstrip().endswith("\\") else ln
+                                                                for ln in lines), name, "trailing-whitespace", None)
+        files[f"{stem}__crlf.{ext}"] = (text.replace("\n", "\r\n"), name, "crlf", None)
+        files[f"{stem}__bom.{ext}"] = ("﻿" + text, name, "bom", None)
+        files[f"{stem}__appended-code.{ext}"] = (text + APPENDED[ext], name, "appended-code", None)
+    return files
+
+
+@custom("c13-edit-invariance-bounded", props=["C13"])
+def c13_edit_invariance_bounded(ctx):
+    files = _edited_files()
+    tmp = _tempfile.mkdtemp(prefix="c13edit_")
+    for name, (text, _b, _k, _p) in files.items():
+        with open(_os.path.join(tmp, name), "w", encoding="utf-8", newline="") as fh:
+            fh.write(text)
+    p = _subprocess.run([_sys.executable, "-c", _EDIT_DRIVER, ctx["repo"], tmp], capture_output=True, text=True, timeout=900, cwd=tmp)
+    import shutil
+    shutil.rmtree(tmp, ignore_errors=True)
+    line = [ln for ln in p.stdout.splitlines() if ln.startswith("RESULT")]
+
+    def ob(name, verdict, note, cases=0):
+        return {"name": f"c13-edit-invariance-bounded/{name}", "kind": "bounded", "verdict": verdict, "solver": "native", "ms": 0.0,
+                "carries": True, "lineno": 0, "note": note, "cases": cases, "tool": "real Orchestrator, all registered rules",
+                "budget": f"{len(files)} edited files", "witness_confirmed": verdict == "refuted"}
+    if not line:
+        return [ob("driver", "unknown", "driver failed: " + (p.stderr or p.stdout)[-400:])]
+    res = {k: [tuple(x) for x in v] for k, v in _json.loads(line[0][len("RESULT"):]).items()}
+    groups = {}
+    for name, (_text, base, kind, k) in sorted(files.items()):
+        if kind == "baseline":
+            continue
+        def moved(v):
+            r, ln, col = v
+            if k is None or (ln == 1 and r.startswith(FILE_LEVEL)):
+                return (r, ln, col)
+            return (r, ln + 1 if ln > k else ln, col)
+        expected = sorted(moved(v) for v in res.get(base, []))
+        actual = sorted(res.get(name, []))
+        if kind in ("trailing-whitespace", "crlf", "bom"):          # columns of findings are not compared for these
+            expected, actual = sorted({(r, ln) for r, ln, _ in expected}), sorted({(r, ln) for r, ln, _ in actual})
+        if kind == "appended-code":
+            nb = len(files[base][0].split("\n"))
+            actual = [v for v in actual if v[1] <= nb]              # findings inside the appended code are its own
+        g = groups.setdefault(f"{base}/{kind}", {"n": 0, "bad": []})
+        g["n"] += 1
+        if expected != actual:
+            miss = [v for v in expected if v not in actual]
+            extra = [v for v in actual if v not in expected]
+            g["bad"].append(f"{name}: lost {miss[:3]} gained {extra[:3]}")
+    obs = []
+    for key in sorted(groups):
+        g = groups[key]
+        obs.append(ob(key, "refuted" if g["bad"] else "discharged",
+                      (f"{len(g['bad'])} of {g['n']} edits change the findings: " + "; ".join(g["bad"][:3])) if g["bad"]
+                      else f"{g['n']} edits: findings unchanged up to the line shift", g["n"]))
+    return obs
